@@ -76,9 +76,8 @@ Print Assumptions C16_transcode_permutation.
    reader's state after the preceding entries).  With C16_chronological that open directive is
    dated on or before the transaction.  This is the checker's invariant (check_proc accepted
    the posting) carried through Valuate and Transcode.
-   NOT proved: that the asset/liability account A of a value adjustment is still open (true of
-   the code: a position with a non-zero quantity cannot have been closed; it needs the coupling
-   of Check's and Valuate's quantity maps).  The executable spec checks it on every case. *)
+   The asset/liability account A of a value adjustment is still open as well:
+   C16_adjusted_account_open at the end of this file. *)
 Theorem C16_open_before_use : forall l v sds days pre t post,
   transcode_days l v sds = COk days ->
   transcode_entries days [] = pre ++ BTxn t :: post ->
@@ -253,3 +252,41 @@ Example C16_mtm_example :
   | _, _ => False
   end.
 Proof. vm_compute. repeat split; reflexivity. Qed.
+
+(* ================================================================== the adjusted account is open *)
+(* (4'') what C16_open_before_use leaves out for value adjustments, as far as it is true: every
+   posting on an asset/liability account -- of a user transaction or of a value adjustment -- goes
+   to an account with an open directive in force at that point of the ledger (and no later close).
+   Valuate books an adjustment only for a position whose quantity is not zero at the start of the
+   day; Check refuses to close an account with a non-zero position and refuses postings to accounts
+   that are not open; both stages add the same quantities to the same positions
+   (Proofs/TranscodeOpenAL.v: the coupling of Check's and Valuate's quantity maps).
+   The other posting of an adjustment goes to Income:..., for which the clause is false
+   (C16_valuation_open_refuted above, F16). *)
+From Knut Require Import Proofs.TranscodeOpenAL.
+
+Theorem C16_adjusted_account_open : forall l v sds dl days pre t post,
+  parse_directives sds = MOk dl -> postings_syntactic dl ->
+  transcode_days l v sds = COk days ->
+  transcode_entries days [] = pre ++ BTxn t :: post ->
+  Forall (fun p => is_AL (p_acc p) = true ->
+                   mem (acc_name (p_acc p)) (map fst (st_open (state_after (erase_entries v pre)))) = true)
+         (t_postings t).
+Proof. exact transcode_AL_open_before_use. Qed.
+Print Assumptions C16_adjusted_account_open.
+
+(* non-vacuity: the fourth emitted item of the witness is the value adjustment; its posting on
+   Assets:P finds the open directive, its posting on Income:P does not (F16) *)
+Example C16_adjusted_account_example :
+  match transcode_days true chf c16_witness with
+  | COk days =>
+    match nth_error (transcode_entries days []) 3 with
+    | Some (BTxn t) =>
+      let st := state_after (erase_entries chf (firstn 3 (transcode_entries days []))) in
+      map (fun p => (is_AL (p_acc p), mem (acc_name (p_acc p)) (map fst (st_open st)))) (t_postings t)
+      = [(false, false); (true, true)]
+    | _ => False
+    end
+  | _ => False
+  end.
+Proof. vm_compute. reflexivity. Qed.
